@@ -641,6 +641,14 @@ fn reserved_declaration_error(tokenizer: &Tokenizer<'_>, position: usize) -> Par
     )
 }
 
+fn invalid_element_name_error(tokenizer: &Tokenizer<'_>, position: usize) -> ParseError {
+    let text_pos = tokenizer.stream().gen_text_pos_from(position);
+    ParseError::XmlParser(
+        xmlparser::Error::InvalidElement(xmlparser::StreamError::InvalidName, text_pos),
+        position,
+    )
+}
+
 /// Offset of the tab, carriage return or line feed that follows `<?xml` at the
 /// very start of a document (after an optional byte order mark), if any.
 fn xml_declaration_separator(xml: &str) -> Option<usize> {
@@ -848,8 +856,13 @@ impl Xot {
                         prefix,
                         local,
                         value,
-                        span: _,
+                        span,
                     } => {
+                        // ":name" is a name but no qualified name; the
+                        // tokenizer reports it as if the colon were not there
+                        if prefix.is_empty() && span.as_str().starts_with(':') {
+                            return Err(reserved_declaration_error(&tokenizer, span.start()));
+                        }
                         if prefix.as_str() == "xmlns" {
                             let uri = parse_attribute(value.as_str().into(), value.start())?;
                             if is_reserved_declaration(local.as_str(), &uri) {
@@ -882,8 +895,11 @@ impl Xot {
                     ElementStart {
                         prefix,
                         local,
-                        span: _,
+                        span,
                     } => {
+                        if prefix.is_empty() && span.as_str().starts_with("<:") {
+                            return Err(invalid_element_name_error(&tokenizer, span.start() + 1));
+                        }
                         builder.element(prefix, local);
                     }
 
@@ -901,6 +917,12 @@ impl Xot {
                                 span_info.add_attribute_spans(node_id, attribute_spans);
                             }
                             Close(prefix, local) => {
+                                if prefix.is_empty() && end_span.as_str().starts_with("</:") {
+                                    return Err(invalid_element_name_error(
+                                        &tokenizer,
+                                        end_span.start() + 2,
+                                    ));
+                                }
                                 let node_id = builder.close_element(prefix, local, self)?;
                                 span_info
                                     .add(SpanInfoKey::ElementEnd(node_id.into()), end_span.into());
